@@ -424,9 +424,26 @@ Fixpoint blist_eqb (a b : list bool) : bool :=
   | _, _ => false
   end.
 
+(* result ids: every equality the model forces must hold in the implementation.  The converse is not
+   demanded: a result is a coarse observable (a calibration's champion, integer counts), so two runs the
+   model keeps apart - unseeded runs from different states - may coincide by chance.  (Generator states
+   and drawn values are compared both ways: there a coincidence is a hash collision.) *)
+Fixpoint ids_refine (m i : list Z) : bool :=
+  match m, i with
+  | [], [] => true
+  | x :: m', y :: i' =>
+      (fix same (m2 i2 : list Z) : bool :=
+         match m2, i2 with
+         | [], [] => true
+         | u :: m3, v :: i3 => (if x =? u then y =? v else true) && same m3 i3
+         | _, _ => false
+         end) m' i' && ids_refine m' i'
+  | _, _ => false
+  end.
+
 Definition out_eqb (a b : outp) : bool :=
   let '(s1, d1, r1, x1, a1) := a in let '(s2, d2, r2, x2, a2) := b in
-  zlist_eqb s1 s2 && zlist_eqb d1 d2 && zlist_eqb r1 r2 && blist_eqb x1 x2 && zlist_eqb a1 a2.
+  zlist_eqb s1 s2 && zlist_eqb d1 d2 && ids_refine r1 r2 && blist_eqb x1 x2 && zlist_eqb a1 a2.
 
 Definition case_mismatch (cfg : srs_cfg) (its : list item) : bool :=
   negb (out_eqb (model_out cfg its) (impl_out its)).
